@@ -68,6 +68,9 @@ def fit_cases(spec, tag=''):
     if exc is not None:
         return cases, info
     mf = spec['params']['min_freq']
+    # the sentinels this object was configured with (the names the user chose, not the ones a sub-step fell back to)
+    STR_NAN = spec['params'].get('str_nan') or E.STR_NAN
+    STR_DEFAULT = spec['params'].get('str_default') or E.STR_DEFAULT
     n = len(X)
     ys = [int(v) for v in spec['y']] if spec.get('y') is not None else [0] * n
     for f, d in spec['features'].items():
@@ -242,8 +245,9 @@ def random_base_spec(seed):
     spec = est_gen.random_object_spec(rng, cls, n=rng.randint(10, 64))
     spec['params']['min_freq'] = rng.choice(THRESHOLDS)
     spec.pop('float_dtype', None)
-    spec['params'].pop('str_nan', None)         # this driver projects with the default sentinels
-    spec['params'].pop('str_default', None)
+    if cls not in ('Discretizer', 'QualitativeDiscretizer', 'CategoricalDiscretizer'):
+        spec['params'].pop('str_nan', None)         # (projected with the default sentinels)
+        spec['params'].pop('str_default', None)
     if len(spec['features']) >= 2 and cls != 'OrdinalDiscretizer' and rng.random() < 0.3:
         # the same fit farmed out to worker processes, the last feature finishing first
         spec['params']['n_jobs'] = 2
